@@ -152,7 +152,48 @@ def monitor_c11(rng: random.Random, tier: str) -> tuple[list, int]:
                     vio.append({"law": "delay tiers: shift on tier 0, weak on the last shared tier", "delay": repr(d), **case})
         finally:
             sw.close_world(w)
+    n += _c11_initial_data_cases(vio)
     return vio, n
+
+
+def _c11_initial_data_cases(vio):
+    """connect() calls that share initial data: one call fanning a source attribute out to two non-trigger inputs, and one dict
+    reused for two calls - both valid, both must be accepted, and the caller's dict must come back unchanged."""
+    n = 0
+    for ts, cache in itertools.product((1, 2), (True, False)):
+        for mode in ("fan-out in one call", "dict reused for two calls"):
+            n += 1
+            w = mosaik.World({"G": {"python": "verif_stubs:GStub"}}, asyncio_loop=asyncio.new_event_loop(), skip_greetings=True, cache=cache)
+            try:
+                ents = sw.start_in_groups(w, [[], [], []])
+                d = {"pe": 5}
+                case = {"mode": mode, "time_shifted": ts, "cache": cache}
+                try:
+                    with warnings.catch_warnings():
+                        warnings.simplefilter("ignore")
+                        if mode == "fan-out in one call":
+                            w.connect(ents[0], ents[1], ("pe", "nt"), ("pe", "pe"), time_shifted=ts, initial_data=d)
+                        else:
+                            w.connect(ents[0], ents[1], ("pe", "nt"), time_shifted=ts, initial_data=d)
+                            w.connect(ents[0], ents[2], ("pe", "nt"), time_shifted=ts, initial_data=d)
+                except Exception as e:  # noqa: BLE001
+                    vio.append({"law": "connect raises ScenarioError exactly in the four documented cases (a valid call sharing initial data was rejected)",
+                                "raised": type(e).__name__, "message": str(e)[:120], **case})
+                    continue
+                if d != {"pe": 5}:
+                    vio.append({"law": "connect leaves the caller's initial_data alone", "initial_data_after": d, **case})
+                snap = snapshot(w)
+                flows = {}
+                for dst in ("S1", "S2"):
+                    pulled = sum(len(v) for (src, _d), v in snap[dst]["pulled"].items() if src == "S0")
+                    pushed = sum(1 for lst in snap["S0"]["push"].values() for (dsid, _iv, _p) in lst if dsid == dst)
+                    flows[dst] = pulled + pushed
+                want = {"S1": 2, "S2": 0} if mode == "fan-out in one call" else {"S1": 1, "S2": 1}
+                if flows != want:
+                    vio.append({"law": "an accepted call registers exactly one data-flow per requested attribute pair", "flows": flows, "want": want, **case})
+            finally:
+                sw.close_world(w)
+    return n
 
 
 # ------------------------------------------------------------------ C06
